@@ -23,7 +23,7 @@ def equiv(a, b):
     if hasattr(b, '_fmts'):
         if not is_ansistr(a):
             return False
-        return same_value(a._s, b) and payload_of(a) == a._s.to_str()
+        return eq_value(a._s, b) and payload_of(a) == a._s.to_str()
     if b is None:
         return a is None
     return a == b
@@ -58,7 +58,7 @@ def post_new_is_ansistr(r):
 
 def post_new_equiv_ansistring(r):
     ref = r.AnsiString(r.old_s, *r.old_settings)
-    return same_value(r.result._s, ref)
+    return eq_value(r.result._s, ref)
 
 
 def post_new_payload_is_rendering(r):
@@ -92,4 +92,4 @@ def post_inplace_agrees(r):
     cpy = r.old_self.copy()
     m = getattr(cpy, r.mname)
     r2 = m(*r.margs, inplace=True)
-    return r2 is cpy and same_value(r2, r.result)
+    return r2 is cpy and eq_value(r2, r.result)
